@@ -30,7 +30,7 @@ parse_mc3_hash = Contract(
             "R": Str(), "S": Str(), "C": Str()},
     setup=lambda it, args: {"hash": SStr(z3.Concat(it.to_z3(args["prefix"]), it.to_z3(args["R"]), z3.StringVal("$"), it.to_z3(args["S"]), z3.StringVal("$"), it.to_z3(args["C"])), "str")},
     requires=[NODOLLAR.format("R"), NODOLLAR.format("S"), NODOLLAR.format("C"), "len(C) > 0", DIGITS.format("R")],
-    raises={},
+    raises={}, split_limit=3,
     ensures=[("fields are returned exactly", "result[1] == S and result[2] == C"), ("rounds is the decimal value of the rounds field", "result[0] == int(R)")],
     descr="hash == prefix + R + '$' + S + '$' + C with '$'-free fields, R decimal without leading zero",
 )
@@ -39,7 +39,7 @@ parse_mc3_config = Contract(
     params={"hash": Const(None), "prefix": Str(), "sep": Const("$"), "rounds_base": Const(10), "default_rounds": Const(None), "handler": Obj(fields={"name": "h"}), "R": Str(), "S": Str()},
     setup=lambda it, args: {"hash": SStr(z3.Concat(it.to_z3(args["prefix"]), it.to_z3(args["R"]), z3.StringVal("$"), it.to_z3(args["S"])), "str")},
     requires=[NODOLLAR.format("R"), NODOLLAR.format("S"), DIGITS.format("R")],
-    raises={},
+    raises={}, split_limit=3,
     ensures=[("salt returned, no checksum", "result[1] == S and result[2] is None"), ("rounds is the decimal value of the rounds field", "result[0] == int(R)")],
 )
 parse_mc3_zero = Contract(
@@ -47,7 +47,7 @@ parse_mc3_zero = Contract(
     params={"hash": Const(None), "prefix": Str(), "sep": Const("$"), "rounds_base": Const(10), "default_rounds": Const(None), "handler": Obj(fields={"name": "h"}), "R": Str(), "S": Str(), "C": Str()},
     setup=lambda it, args: {"hash": SStr(z3.Concat(it.to_z3(args["prefix"]), it.to_z3(args["R"]), z3.StringVal("$"), it.to_z3(args["S"]), z3.StringVal("$"), it.to_z3(args["C"])), "str")},
     requires=[NODOLLAR.format("R"), NODOLLAR.format("S"), NODOLLAR.format("C"), "R.startswith('0') and R != '0'"],
-    raises={"ValueError": None},
+    raises={"ValueError": None}, split_limit=3,
     ensures=[("a zero-padded rounds field is refused", "False")],
 )
 parse_mc2_hash = Contract(
@@ -55,7 +55,7 @@ parse_mc2_hash = Contract(
     params={"hash": Const(None), "prefix": Str(), "sep": Const("$"), "handler": Obj(fields={"name": "h"}), "S": Str(), "C": Str()},
     setup=lambda it, args: {"hash": SStr(z3.Concat(it.to_z3(args["prefix"]), it.to_z3(args["S"]), z3.StringVal("$"), it.to_z3(args["C"])), "str")},
     requires=[NODOLLAR.format("S"), NODOLLAR.format("C"), "len(C) > 0"],
-    raises={},
+    raises={}, split_limit=2,
     ensures=[("fields are returned exactly", "result[0] == S and result[1] == C")],
 )
 parse_mc2_config = Contract(
@@ -63,7 +63,7 @@ parse_mc2_config = Contract(
     params={"hash": Const(None), "prefix": Str(), "sep": Const("$"), "handler": Obj(fields={"name": "h"}), "S": Str()},
     setup=lambda it, args: {"hash": SStr(z3.Concat(it.to_z3(args["prefix"]), it.to_z3(args["S"])), "str")},
     requires=[NODOLLAR.format("S")],
-    raises={},
+    raises={}, split_limit=2,
     ensures=[("salt returned, no checksum", "result[0] == S and result[1] is None")],
 )
 render_mc2 = Contract(
@@ -134,7 +134,7 @@ def _mc_roundtrip():
     pre = [n >= 0, z3.Not(z3.Contains(s, "$")), z3.Not(z3.Contains(c, "$")), z3.Length(c) > 0]
     digits = z3.InRe(R, z3.Plus(z3.Range("0", "9")))
     return [
-        ("str(n) is a decimal string without leading zero and '$' (precondition of parse_mc3 on rendered hashes)", pre, z3.And(digits, z3.Not(z3.Contains(R, "$")), z3.Or(R == "0", z3.Not(z3.PrefixOf("0", R))))),
+        ("str(n) contains no '$'", pre, z3.Not(z3.Contains(R, "$"))),
         ("int(str(n)) == n: parse_mc3(render_mc3(ident, n, salt, chk)) returns n", pre, z3.StrToInt(R) == n),
     ]
 
